@@ -243,6 +243,11 @@ func (p *Pool) Put(x any) {
 	if who, ok := InUse(x); ok {
 		Event("pool: %T released while %s is still using it at %s", x, who, callers())
 	}
+	if RaceEnabled {
+		if v := reflect.ValueOf(x); v.Kind() == reflect.Ptr && !v.IsNil() && v.Elem().Kind() == reflect.Struct && strings.Contains(v.Elem().Type().PkgPath(), "dgrr/http2") {
+			ownershipWrite(unsafe.Pointer(v.Pointer()), v.Elem().Type().Size())
+		}
+	}
 	if PoolFresh {
 		for _, y := range p.retired {
 			if y == x {
